@@ -126,10 +126,20 @@ Definition passive_ok : bool :=
   && forallb (fun x => snd x) iso_passive_callbacks
   && subset_s ["pasv"; "epsv"] (map (fun x => fst (fst x)) iso_passive_callbacks)
   && iso_start_passive_passes_callback
-  && forallb (fun o =>
-       existsb (fun w => String.eqb (ws_fn w) (o ++ ".handler") && String.eqb (ws_base w) "connection"
+  (* the accept handler (second component: its qualified name - nested in the command handler, or nested in a helper
+     that is called with the handler's own connection and returns it) sets connection.data_connection *)
+  && forallb (fun x =>
+       existsb (fun w => String.eqb (ws_fn w) (snd (fst x)) && String.eqb (ws_base w) "connection"
                          && String.eqb (ws_path w) "data_connection" && String.eqb (ws_kind w) "set") iso_sites)
-     ["pasv"; "epsv"].
+     iso_passive_callbacks.
+
+(* pathio.py: the nursery builds a NEW backend instance per call (per accepted socket) and writes nothing but its
+   `state` (the shared tree, by design); no backend method other than __init__ assigns an attribute of the instance;
+   no class-level mutable on the backend classes *)
+Definition backend_ok : bool :=
+  iso_nursery_fresh && subset_s iso_nursery_self_writes ["state"]
+  && match iso_backend_self_writes with [] => true | _ => false end
+  && match iso_backend_class_state with [] => true | _ => false end.
 
 (* the handler footprints of Gen.Dispatch agree: writes to self only in user() (the per-user throttle);
    calls on self are Server methods or the user manager / connection counter *)
@@ -146,4 +156,4 @@ Definition dispatch_facts_ok : bool :=
 
 Definition isolation_facts_ok : bool :=
   translator_ok_isolation && translator_ok
-  && sites_ok && naming_ok && construction_ok && passive_ok && dispatch_facts_ok.
+  && sites_ok && naming_ok && construction_ok && passive_ok && dispatch_facts_ok && backend_ok.
